@@ -126,13 +126,18 @@ func (r *Run) Op(op string, implOut string) {
 	}
 }
 
-func (r *Run) Count(k string)            { r.Counts[k]++ }
-func (r *Run) Case(k string)             { r.Distinct[k] = true }
+func (r *Run) Count(k string) { r.Counts[k]++ }
+func (r *Run) Case(k string)  { r.Distinct[k] = true }
+
 // Violate records a monitor violation for the op currently being executed (drivers evaluate
 // monitors while computing an op's result, i.e. before they call Op for it).
 func (r *Run) Violate(sig, descr string) {
 	r.Viol = append(r.Viol, Violation{sig, r.NOps + 1, descr})
 }
+
+// Enough reports that the run has collected plenty of violations already: generators stop early
+// instead of spending the whole budget on an implementation that is evidently broken.
+func (r *Run) Enough() bool { return len(r.Viol) >= 200 }
 
 // Close flushes the streams and writes stats.json.
 func (r *Run) Close() {
